@@ -26,7 +26,7 @@ REJECT = ['R:zone-type', 'R:zone-enum', 'R:zone-name', 'R:axis-type', 'R:param-r
 
 
 def depth(tier):
-    return 4 if tier == 'quick' else 5
+    return 4 if tier == 'quick' else 6
 
 
 def bounds(tier):
